@@ -69,6 +69,7 @@ type Op struct {
 	Sil    *Sil   `json:"sil,omitempty"`
 	ID     string `json:"id,omitempty"`
 	Params []QP   `json:"params,omitempty"`
+	Dead   int    `json:"dead,omitempty"`  // set / apipost: 1 = the caller's context is ALREADY cancelled; 2 = it is cancelled during the call (at the call's first broadcast)
 	Limit  int    `json:"limit,omitempty"` // kind limit: the new Limits.MaxSilenceSizeBytes
 	Now    int64  `json:"now,omitempty"` // observed
 	Out    string `json:"out,omitempty"` // observed (informational)
@@ -227,6 +228,7 @@ type runner struct {
 	tags      map[string]int
 	viol      []vh.Violation
 	ret       time.Duration
+	onBcast   func()            // called by the broadcast callback (used to cancel a caller's context mid-call)
 	maxSize   int               // the current Limits.MaxSilenceSizeBytes (starts as c.MaxSize; op kind limit changes it)
 	firstSets map[string]string // canonical id -> matcher sets when first seen
 }
@@ -369,7 +371,12 @@ func (r *runner) newSilences(snapshot io.Reader) {
 	if err != nil {
 		r.t.Fatalf("silence.New: %v", err)
 	}
-	s.SetBroadcast(func(b []byte) { r.bcast = append(r.bcast, append([]byte(nil), b...)) })
+	s.SetBroadcast(func(b []byte) {
+		r.bcast = append(r.bcast, append([]byte(nil), b...))
+		if r.onBcast != nil {
+			r.onBcast()
+		}
+	})
 	r.s = s
 	r.api = v2.VerifSilenceAPI(s, promslog.NewNopLogger())
 }
@@ -647,6 +654,23 @@ func (r *runner) exec(i int, prev view) view {
 	r.bcast = nil
 	ctx := context.Background()
 	req, _ := http.NewRequest("GET", "/api/v2/silences", nil)
+	// an abandoned caller: the store does not look at the context, so the call behaves like any other. Should a Set ever
+	// answer the context's error instead, it must have done NOTHING (all-or-nothing): then the call is left out of the
+	// history the model sees, and the store must be exactly as before.
+	abandoned := false
+	if op.Dead != 0 && (op.Kind == "set" || op.Kind == "apipost") {
+		c, cancel := context.WithCancel(ctx)
+		defer cancel()
+		if op.Dead == 1 {
+			cancel()
+		} else {
+			r.onBcast = cancel
+			defer func() { r.onBcast = nil }()
+		}
+		ctx = c
+		req = req.WithContext(c)
+		r.tags[fmt.Sprintf("%s/caller-context-cancelled-%d", op.Kind, op.Dead)]++
+	}
 	var opTerm, outTerm string
 	gcRan, gcN := false, 0
 	type setJudge struct {
@@ -666,6 +690,9 @@ func (r *runner) exec(i int, prev view) view {
 		reqID := sil.Id
 		err := r.s.Set(ctx, sil)
 		code := classify(err)
+		if op.Dead != 0 && err != nil && (errors.Is(err, context.Canceled) || strings.Contains(err.Error(), "context canceled")) {
+			abandoned = true
+		}
 		fresh := r.peek()
 		var sz int64
 		if err == nil || code == "toobig" || code == "?" { // "?": possibly a size rejection with another wording
@@ -727,6 +754,9 @@ func (r *runner) exec(i int, prev view) view {
 			sj = &setJudge{before, op.Sil.ID, "", r.cid(id), true}
 		case *silence_ops.PostSilencesBadRequest:
 			code := classifyText(x.Payload)
+			if op.Dead != 0 && strings.Contains(x.Payload, "context canceled") {
+				abandoned = true
+			}
 			if code == "?" || code == "notfound" {
 				code = "?400" // a 400 answer: any reason, but not the not-found one (that is a 404)
 			}
@@ -890,6 +920,13 @@ func (r *runner) exec(i int, prev view) view {
 		r.t.Fatalf("unknown op kind %q", op.Kind)
 	}
 	op.Out = outTerm
+	if abandoned {
+		r.tags["abandoned-call-answered-context-error"]++
+		r.bcast = nil
+		cur := r.observe(now)
+		r.checkUnchanged(i, prev, cur, "failed-set-changed-store")
+		return cur
+	}
 	r.hist = append(r.hist, fmt.Sprintf("(%s, XOp %s, XOut %s)", vh.Z(now), opTerm, outTerm))
 	r.tags["op/"+op.Kind]++
 	cur := r.observe(now)
@@ -1317,6 +1354,9 @@ func (r *runner) gen(g *vh.Rand, v view, now int64, created []string) Op {
 			}
 		}
 	}
+	if (op.Kind == "set" || op.Kind == "apipost") && g.Chance(1, 4) {
+		op.Dead = 1 + g.Intn(2) // the caller went away before / during the call
+	}
 	return op
 }
 
@@ -1533,6 +1573,7 @@ func TestCheck(t *testing.T) {
 		}
 		directRun(t, run, DirectParams{Kind: "far", Note: directNote})
 	}
+	amtoolSilencePart(t, run, env) // amtool_test.go: the real `amtool silence add / query / update` command line
 	if err := run.Finish("adaptive random histories of Set/Expire/GC/Query/Reload and POST/DELETE/GET handler calls on 1-4 silences under synctest virtual time, instants at start/end/end+retention -1/0/+1 ns; after every op the st/mi/vi/version bookkeeping and the full content are read; non-trivial = at least two Set/POST and one Expire/DELETE/GC; distinct by full history text"); err != nil {
 		t.Fatal(err)
 	}
